@@ -4,11 +4,11 @@
 package ptr
 
 //@ func New
-//@   property C13
+//@   property C13 C09
 //@   ensures [nonnil] result != nil
 //@   ensures [value] *result == i
 
 //@ func Dereference pure
-//@   property C13 C15
+//@   property C13 C15 C02 C09 C11
 //@   ensures [value] ptr != nil ==> result == *ptr
 //@   ensures [default] ptr == nil ==> result == default_
